@@ -182,6 +182,38 @@ def check(ctx):
                     continue
                 judge_flow(ctx, proto, m, x, rows)
         ctx.traces_validated += len(jobs)
+        # the same code built for a 32-bit architecture (GOARCH=386, int is 32 bits wide): header words and counters at and
+        # above 2^31 come out of the JSON as the numbers they are
+        try:
+            drv32 = ctx.go_build_test(codec.P[proto]["pkg"], codec.P[proto]["drivers"], goarch="386", drop_own_tests=True)
+        except vlib.Infra as e:
+            drv32 = None
+            ctx.assumptions.append("the 32-bit build of the %s driver could not be made here: %s" % (proto, str(e)[:200]))
+        if drv32:
+            jobs32 = []
+            for k, job in enumerate(jobs[-12:]):
+                top = [[128, 0, 0, 0], [255, 255, 255, 255], [154, 126, 192, 0], [255, 255, 255, 240]][k % 4]
+                msgs = []
+                for m in job["msgs"]:
+                    b = list(m["buf"])
+                    for off in ((4, 8, 12) if proto == "ipfix" else (4, 8, 12, 16)):
+                        if len(b) >= off + 4:
+                            b[off:off + 4] = top
+                    msgs.append({"exp": m["exp"], "buf": b})
+                jobs32.append({"msgs": msgs, "want_json": True})
+            res32 = flowjobs.run_jobs(ctx, drv32, codec.P[proto]["jobs"], jobs32, env={"VERIF_ELEMENTS_DIR": d}, tag="j386_" + proto, timeout=600)
+            nv, n386 = len(ctx.violations), 0
+            for job, rr in zip(jobs32, res32):
+                if rr.get("skipped") or "killed" in rr:
+                    ctx.assumptions.append("32-bit test binaries do not run in this sandbox (%s)" % proto)
+                    break
+                for m, x in zip(job["msgs"], rr["res"]):
+                    if x["st"] != "panic":
+                        judge_flow(ctx, proto, m, x, [])
+                        n386 += 1
+            for v in ctx.violations[nv:]:
+                v["what"] = "(built for GOARCH=386) " + v["what"]
+            ctx.extra["json_documents_checked_386_" + proto] = n386
     ctx.sample({"string_case": strings[len(strings) // 2], "note": "as IPFIX element 82 (variable length) and as a NetFlow v9 fixed-length field"})
     ok, bad = flowjobs.validate_trace(ctx, "JsonTrace", "JsonTrace.cfg", rows, chunk=500, stateless=True)
     if not ok:
